@@ -63,7 +63,8 @@ JudgeReadOffset(cs, q, a) ==
            IN  Fld("err", a.err = 0) \cup
                (CASE q.kind = "first"   -> Fld("offset", a.off = part.start)
                   [] q.kind = "last"    -> Fld("offset", a.off = part.end)
-                  [] q.kind = "time"    -> Fld("offset", a.off = OffsetAt(part, q.ts))
+                  \* (the Conn has no isolation level: every record below the log end offset is visible)
+                  [] q.kind = "time"    -> Fld("offset", a.off = OffsetAt(part, q.ts, ReadUncommitted))
                   [] q.kind = "offsets" -> Fld("first", a.first = part.start) \cup Fld("last", a.last = part.end))
 
 (***************************************************************************)
@@ -115,10 +116,12 @@ JudgeMetadata(cs, q, a) ==
 (***************************************************************************)
 (* Client.ListOffsets: any combination of (topic, partition, timestamp)    *)
 (* in one request; one answer per topic-partition; a failure of one        *)
-(* partition is reported on it and nowhere else.                           *)
+(* partition is reported on it and nowhere else.  q.iso: the request's      *)
+(* IsolationLevel, q.bv: highest ListOffsets version the brokers speak.    *)
 (***************************************************************************)
 JudgeListOffsets(cs, q, a) ==
   LET reqs == q.reqs
+      iso  == EffectiveIsolation(q.iso, q.bv)
       want == {<<reqs[i].t, reqs[i].p>> : i \in DOMAIN reqs}
       got  == {<<a.parts[i].t, a.parts[i].p>> : i \in DOMAIN a.parts}
       allUnreachable == reqs # <<>> /\ \A i \in DOMAIN reqs : Unreachable(cs, reqs[i].t, reqs[i].p)
@@ -136,13 +139,13 @@ JudgeListOffsets(cs, q, a) ==
                      timedFail == part.lerrt # 0 /\ times # {}     \* the lookups by timestamp of this partition fail, the others succeed
                  IN  Fld(w \o "error", r.err = IF timedFail THEN part.lerrt ELSE 0)
                        \cup Fld(w \o "first", r.first = IF FirstOffset \in asked THEN part.start ELSE -1)
-                       \cup Fld(w \o "last", r.last = IF LastOffset \in asked THEN part.end ELSE -1)
+                       \cup Fld(w \o "last", r.last = IF LastOffset \in asked THEN OffsetAt(part, LastOffset, iso) ELSE -1)
                        \cup Fld(w \o "offsets",
                                 \* (what Offsets holds for failed lookups is not specified)
                                 timedFail \/
-                                (/\ \A ts \in times : \E j \in DOMAIN r.offsets : r.offsets[j][1] = OffsetAt(part, ts)
+                                (/\ \A ts \in times : \E j \in DOMAIN r.offsets : r.offsets[j][1] = OffsetAt(part, ts, iso)
                                  /\ \A j \in DOMAIN r.offsets :
-                                       \E ts \in times : OffsetAt(part, ts) = r.offsets[j][1] /\ r.offsets[j][2] = ts))
+                                       \E ts \in times : OffsetAt(part, ts, iso) = r.offsets[j][1] /\ r.offsets[j][2] = ts))
   IN  IF a.err # 0 THEN Fld("err", allUnreachable)
       ELSE Fld("partition list", got = want /\ Len(a.parts) = Cardinality(want))
              \cup UNION {One(i) : i \in DOMAIN a.parts}
@@ -153,33 +156,48 @@ JudgeListOffsets(cs, q, a) ==
 (***************************************************************************)
 WantedTPs(topics) == UNION {{<<topics[i].t, topics[i].parts[j]>> : j \in DOMAIN topics[i].parts} : i \in DOMAIN topics}
 
-JudgeFetched(prefix, committed, topics, a) ==
+\* gerr: the error the coordinator answers for the whole group (0: none).  A refused OffsetFetch must report the
+\* refusal (RefusalReported); the partitions it lists (none, or all of them: the coordinator's choice per API
+\* version) carry the coordinator's code and nothing else is presented as a committed offset.
+JudgeFetched(prefix, committed, gerr, topics, a) ==
   LET want == WantedTPs(topics)
       got  == {<<a.parts[i].t, a.parts[i].p>> : i \in DOMAIN a.parts}
       One(i) ==
         LET r == a.parts[i]
             w == prefix \o TP(r.t, r.p) \o " "
         IN  IF <<r.t, r.p>> \notin want THEN {}
+            ELSE IF gerr # 0 THEN Fld(w \o "error", r.err = gerr)
             ELSE Fld(w \o "committed", r.off = CommittedIn(committed, r.t, r.p)) \cup Fld(w \o "error", r.err = 0)
   IN  IF a.err # 0 THEN {prefix \o "err"}
+      ELSE IF gerr # 0
+        THEN Fld(prefix \o "group error", a.gerr \in {0, gerr} /\
+                   RefusalReported(gerr, want, a.gerr, {<<a.parts[i].t, a.parts[i].p, a.parts[i].err>> : i \in DOMAIN a.parts}))
+               \cup Fld(prefix \o "partition list", got \subseteq want /\ Len(a.parts) = Cardinality(got))
+               \cup UNION {One(i) : i \in DOMAIN a.parts}
       ELSE Fld(prefix \o "group error", a.gerr = 0)
              \cup Fld(prefix \o "partition list", got = want /\ Len(a.parts) = Cardinality(want))
              \cup UNION {One(i) : i \in DOMAIN a.parts}
 
 JudgeOffsetFetch(cs, q, a) ==
-  JudgeFetched("", IF q.group \in GroupIds(cs) THEN GroupOf(cs, q.group).committed ELSE <<>>, q.topics, a)
+  JudgeFetched("", IF q.group \in GroupIds(cs) THEN GroupOf(cs, q.group).committed ELSE <<>>, GroupError(cs, q.group), q.topics, a)
 
+\* q.gerr: the coordinator refuses the (case-private) group with this code: the refusal is reported on every
+\* partition of the commit (OffsetCommit has no group-level error field in any version), nothing is committed,
+\* the OffsetFetch afterwards reports the refusal, and so does ConsumerOffsets (asked when q.co), whose only
+\* way to report anything is its error result.
 JudgeCommit(cs, q, a) ==
-  LET after == AfterCommit(q.init, q.commits)
+  LET after == IF q.gerr # 0 THEN q.init ELSE AfterCommit(q.init, q.commits)
       want  == {<<q.commits[i].t, q.commits[i].p>> : i \in DOMAIN q.commits}
       got   == {<<a.cparts[i].t, a.cparts[i].p>> : i \in DOMAIN a.cparts}
       coWant == {<<p, CommittedIn(after, q.ctopic, p)>> : p \in PartIds(cs, q.ctopic)}
   IN  IF a.cerr # 0 THEN {"commit err"}
       ELSE Fld("commit partition list", got = want /\ Len(a.cparts) = Cardinality(want))
-             \cup Fld("commit errors", \A i \in DOMAIN a.cparts : a.cparts[i].err = 0)
-             \cup JudgeFetched("fetch ", after, q.fetch, a.fetch)
-             \cup Fld("consumeroffsets err", a.co.err = 0)
-             \cup Fld("consumeroffsets", a.co.err # 0 \/ (Range(a.co.offs) = coWant /\ Len(a.co.offs) = Cardinality(coWant)))
+             \cup Fld("commit errors", \A i \in DOMAIN a.cparts : a.cparts[i].err = q.gerr)
+             \cup JudgeFetched("fetch ", after, q.gerr, q.fetch, a.fetch)
+             \cup (IF ~q.co THEN {}
+                   ELSE IF q.gerr # 0 THEN Fld("consumeroffsets of a refused group: err", a.co.err # 0)
+                   ELSE Fld("consumeroffsets err", a.co.err = 0)
+                          \cup Fld("consumeroffsets", a.co.err # 0 \/ (Range(a.co.offs) = coWant /\ Len(a.co.offs) = Cardinality(coWant))))
 
 (***************************************************************************)
 Judge(c) ==
